@@ -317,7 +317,7 @@ func checkC20(c *Ctx) {
 				continue
 			}
 			l, isL := sub.X.(*ssa.UnOp)
-			if !isL || fieldVar(l.X) == nil || fieldVar(l.X).Name() != "lastTick" {
+			if !isL || !p.isRoleField(fieldVar(l.X), "sequencer.Song", "lastTick") {
 				ok = false
 				why = "closing delta does not start from the song end"
 				continue
